@@ -289,7 +289,10 @@ def _gen_import(rng, w):
         r_, c_ = rng.randint(1, 3), rng.randint(1, 3)
         vals = [float(rng.randint(-3, 3)) if tcode == 'd' else rng.randint(-3, 3) for _ in range(r_ * c_)]
         return ['import', nm, {'k': 'ctypes2d', 'tcode': tcode, 'v': vals, 'shape': [r_, c_]}]
-    return ['import', nm, {'k': rng.choice(['bytearray', 'array_f', 'array_B', 'bytes']), 'v': [rng.randint(0, 3) for _ in range(rng.randint(1, 4))]}]
+    k_ = rng.choice(['bytearray', 'array_f', 'array_B', 'bytes', 'cast3d', 'cast3d', 'array_L', 'array_I', 'array_h'])
+    if k_ == 'cast3d':
+        return ['import', nm, {'k': 'cast3d', 'tcode': rng.choice(['l', 'd']), 'v': [rng.randint(-3, 3) for _ in range(8)]}]
+    return ['import', nm, {'k': k_, 'v': [rng.randint(0, 3) for _ in range(rng.randint(1, 4))]}]
 
 
 # ----------------------------------------------------------------------------- execution
@@ -677,6 +680,13 @@ def apply(op, w, stats, rngless=None):
             src = memoryview(base)[slice(*spec['slice'])]
             rows = list(range(*slice(*spec['slice']).indices(sspec['m'])))
             want = MDL.MM(sspec['tc'], len(rows), sspec['n'], [bm.get(i, j) for j in range(sspec['n']) for i in rows])
+        elif k == 'cast3d':
+            base = array.array(spec['tcode'], [float(x) for x in vals] if spec['tcode'] == 'd' else vals)
+            src = memoryview(base).cast('B').cast(spec['tcode'], shape=[2, 2, 2])      # three dimensions: must be refused
+            mutate = base
+        elif k in ('array_L', 'array_I', 'array_h'):
+            src = array.array(k[-1], vals)       # item sizes 8, 4, 2 under formats that are not supported
+            mutate = src
         elif k == 'bytearray':
             src = bytearray(vals)
         elif k == 'bytes':
@@ -685,6 +695,18 @@ def apply(op, w, stats, rngless=None):
             src = array.array('f', [float(x) for x in vals])
         else:
             src = array.array('B', vals)
+        def source_released():
+            # an array that still exports a buffer cannot be resized; a memoryview with exports cannot be released
+            try:
+                if isinstance(src, memoryview):
+                    src.release()
+                b_ = mutate if isinstance(mutate, array.array) else (src if isinstance(src, array.array) else None)
+                if b_ is not None:
+                    b_.append(b_[0] if len(b_) else 0)
+                    b_.pop()
+                return True
+            except BufferError:
+                return False
         args = spec.get('args')
         kw = {}
         refuse = False
@@ -703,6 +725,9 @@ def apply(op, w, stats, rngless=None):
         try:
             Y = matrix(src, **kw)
         except TypeError as ex:
+            if k != 'rows2d' and not source_released():
+                raise Mismatch('import-keeps-source-exported', 'matrix(%s buffer) was refused (%s) but the source object is still exporting a buffer' % (k, ex),
+                               op='import', src=k, refused=True)
             if refuse:
                 bump('import_bad_arguments_refused')
                 return
@@ -731,6 +756,8 @@ def apply(op, w, stats, rngless=None):
                 mutate[q] = mutate[q] + 1
             if not DNS.same(Y, want):
                 raise Mismatch('import-shares-storage', 'the matrix built from a %s buffer changed when the source was mutated' % k, op='import', src=k)
+        if k in ('array', 'strided', 'cast2d') and not source_released():
+            raise Mismatch('import-keeps-source-exported', 'after matrix(%s buffer) the source object is still exporting a buffer' % k, op='import', src=k, refused=False)
         w.bind(op[1], Y, want)
         return
     raise ValueError(kind)
